@@ -270,10 +270,13 @@ def analyse():
         if node is None:
             rows.append((row, ["XOther"]))
             continue
-        rets = []
-        _walk_returns(node.body, [], rets)
-        assigned = _assigned_names(node)
-        kinds = [_classify_return(r, conds, node, assigned) for r, conds in rets]
+        try:
+            rets = []
+            _walk_returns(node.body, [], rets)
+            assigned = _assigned_names(node)
+            kinds = [_classify_return(r, conds, node, assigned) for r, conds in rets]
+        except Exception:  # noqa  a recogniser defect must not take the other properties' checks down: fail closed
+            kinds = ["XOther"]
         rows.append((row, kinds or ["XOther"]))
     absent = True
     for rel, cls, fn in MUST_BE_ABSENT:
